@@ -453,6 +453,7 @@ def c02(rep, tier):
                           'file, the generator\'s current position, or the "-"/-1 placeholder', floor=20)
     ERR_RECS = ('Theo::ParseError', 'Theo::SyntaxError', 'Theo::CodegenResult::Error')
     token_positions_rule(F, M, lib)
+    dangling_rule(rep, M, lib)
     # the generator reports errors at its current position; before the first visible node it is the initial one
     genf2 = lib.fn('Theo::gen')
     for e in walk_all_exprs(genf2['body']):
@@ -482,6 +483,163 @@ def c02(rep, tier):
                 else:
                     F.check(okm and okl, inst, 'message has literal text; location from %s' % why,
                             'malformed error record: %s' % ('empty message' if not okm else why), where)
+
+
+SEQ_PREFIX = ('std::vector<', 'std::deque<', 'std::basic_string<', 'std::__cxx11::basic_string<')
+INVALIDATING = ('push_back', 'emplace_back', 'insert', 'emplace', 'erase', 'pop_back', 'clear', 'resize', 'reserve', 'assign',
+                'shrink_to_fit', 'swap', 'operator=', 'append', 'operator+=')
+ELEMENT_ACCESS = ('back', 'front', 'operator[]', 'at')
+POSITION_ACCESS = ('begin', 'end', 'cbegin', 'cend', 'rbegin', 'rend')
+
+
+def _is_seq(e):
+    c = (e.get('cty') or '').replace('const ', '')
+    return c.startswith(SEQ_PREFIX)
+
+
+def _method(e):
+    if e.get('k') != 'call' or e.get('obj') is None:
+        return None
+    return (e.get('callee') or '').split('::')[-1]
+
+
+def dangling_rule(rep, M, lib):
+    """A reference, pointer or iterator into a contiguous/sequence container must not be used after an operation on that
+    container that can invalidate it (reallocation, removal of the element).  Decided per function on its CFG: a use U of the
+    handle is a violation when some path leads from the invalidating call I to U without passing the handle's (re)binding."""
+    K = rep.rule('C02.k', 'no reference, pointer or iterator into a sequence container is used after an operation on that container that '
+                          'invalidates it (undefined behaviour)', floor=10)
+    n_handles = 0
+    for f in lib.functions:
+        if f.get('body') is None or not f['file'].endswith('.cpp') or f['file'].endswith('lex.yy.c'):
+            continue
+        handles = []     # (var decl dict, container text, source method, kind)
+        for st in walk_stmts(f['body']):
+            vs = []
+            if st['k'] == 'decl':
+                vs = [(v, v.get('init')) for v in st['vars']]
+            elif st['k'] == 'rangefor' and st.get('var') is not None and st['var'].get('is_ref') and st.get('range') is not None:
+                r = strip_casts(st['range'])
+                if r is not None and _is_seq(r):
+                    handles.append((st['var'], show(r), 'range', 'rangefor', st))
+                continue
+            for v, init in vs:
+                if init is None:
+                    continue
+                cty = v.get('cty') or ''
+                is_it = 'iterator' in cty
+                is_ptr = cty.rstrip().endswith('*')
+                if not (v.get('is_ref') or is_it or is_ptr):
+                    continue
+                src = None
+                for x in walk_expr(init):
+                    m = _method(x)
+                    if m is None:
+                        continue
+                    o = strip_casts(x['obj'])
+                    if o is None or not _is_seq(o):
+                        continue
+                    if v.get('is_ref') and m in ELEMENT_ACCESS and x is strip_casts(init):
+                        src = (show(o), m)
+                    elif is_ptr and m in ELEMENT_ACCESS + ('data',):
+                        src = (show(o), m)
+                    elif is_it and m in POSITION_ACCESS:
+                        src = (show(o), m)
+                    if src:
+                        break
+                if src:
+                    handles.append((v, src[0], src[1], 'iterator' if is_it else ('pointer' if is_ptr else 'reference'), st))
+        if not handles:
+            continue
+        g = M.cfg(f)
+        # lambdas called here that invalidate a container of this function by name
+        lam_inval = {}
+        for ev in g.calls(lambda e: e.get('callee_lambda_id')):
+            lam = lib.fn(ev.e['callee_lambda_id'], optional=True) if hasattr(lib, 'fn') else None
+            if lam is None or lam.get('body') is None:
+                continue
+            for x in walk_all_exprs(lam['body']):
+                m = _method(x)
+                if m in INVALIDATING and _is_seq(strip_casts(x['obj'])):
+                    lam_inval.setdefault(ev.e['sid'], []).append((show(strip_casts(x['obj'])), m))
+        for v, cont, how, kind, st in handles:
+            n_handles += 1
+            d = v['d']
+            inst = '%s: %s %s -> %s.%s()' % (f['q'].split('::')[-1], kind, v['name'], cont, how)
+            # kill nodes: the (re)binding of the handle
+            kills = set()
+            for n in g.nodes:
+                if n.kind == 'stmt' and isinstance(n.label, tuple) and n.label[0] == 'decl' and n.label[1] == d:
+                    kills.add(n.id)
+            lhs_sids = set()
+            for ev in g.events:
+                e = ev.e
+                tgt = None
+                if e.get('k') == 'assign' and e['op'] == '=':
+                    tgt = strip_casts(e['l'])
+                elif e.get('k') == 'call' and (e.get('callee') or '').endswith('::operator=') and e.get('obj') is not None:
+                    tgt = strip_casts(e['obj'])
+                if tgt is not None and tgt.get('k') == 'ref' and tgt.get('d') == d:
+                    kills.add(ev.node.id)
+                    lhs_sids.add(tgt.get('sid'))
+            if kind == 'rangefor':
+                body_nodes = None
+            bad = None
+            for iev in g.calls():
+                e = iev.e
+                hits = []
+                m = _method(e)
+                if m in INVALIDATING and show(strip_casts(e['obj'])) == cont:
+                    hits.append(m)
+                for c2, m2 in lam_inval.get(e.get('sid'), []):
+                    if c2 == cont:
+                        hits.append(m2)
+                if not hits:
+                    continue
+                m = hits[0]
+                if m == 'pop_back' and how not in ('back', 'end', 'rbegin', 'range'):
+                    continue
+                if m in ('operator=', 'swap') and kind == 'rangefor':
+                    pass
+                # uses reachable from the invalidation without rebinding
+                seen = set()
+                work = [s2 for s2 in iev.node.succ]
+                uses = [u for u in iev.node.events if u.idx > iev.idx and u.e.get('k') == 'ref' and u.e.get('d') == d and u.e.get('sid') not in lhs_sids]
+                # an assignment in the same statement after the call rebinds (it = v.erase(it))
+                if iev.node.id in kills and kind != 'rangefor':
+                    uses = []
+                    work = []
+                while work and not uses:
+                    n = work.pop()
+                    if n.id in seen:
+                        continue
+                    seen.add(n.id)
+                    if n.id in kills:
+                        # a declaration node re-evaluates its initialiser before binding: uses inside it are uses of the new binding
+                        continue
+                    us = [u for u in n.events if u.e.get('k') == 'ref' and u.e.get('d') == d and u.e.get('sid') not in lhs_sids]
+                    if us:
+                        uses = us
+                        break
+                    work.extend(n.succ)
+                if kind == 'rangefor' and not uses:
+                    # the hidden iterator of the loop is used by the next iteration whenever the loop continues
+                    cn = [n for n in g.nodes if n.kind == 'cond' and n.stmt is st]
+                    if cn and (cn[0].id in seen or any(x.id == cn[0].id for x in iev.node.succ)):
+                        uses = [iev]
+                if uses:
+                    bad = (iev, uses[0], m)
+                    break
+            if bad:
+                iev, u, m = bad
+                K.violation(inst, '%s.%s() at line %s can invalidate %s, which is used afterwards at line %s without being re-bound' % (
+                    cont, m, iev.e['loc'][0] if iev.e.get('loc') else '?', v['name'], u.e['loc'][0] if u.e.get('loc') else '?'),
+                    '%s:%d' % (rel(lib, f['file']), (u.e.get('loc') or iev.e.get('loc') or [0])[0]),
+                    witness={'container': cont, 'invalidated_by': m, 'handle': v['name']})
+            else:
+                K.ok(inst, 'no use of %s is reachable from an invalidating operation on %s without passing its binding' % (v['name'], cont),
+                     '%s:%d' % (rel(lib, f['file']), v['loc'][0]))
+    rep.extra['container_handles'] = n_handles
 
 
 def value_leaves(M, f, e, depth=0):
